@@ -101,13 +101,64 @@ LOAD = {
     'wide_flow_in_block':   lambda n: 'k:\n' + _lines('  - {a: [1, 2, 3], b: {c: d}, e: [f, g]}\n', n),
     'flow_pairs':           lambda n: '[' + ', '.join(['a: b'] * n) + ']\n',
 }
+
+
+# A growing node in every structural position.  The catalogue above grows the ROOT (or its only value); here the node that
+# grows (G: flow / block sequence, flow / block mapping, long scalar) sits as a mapping KEY (first, later, nested), as the
+# first / a later sequence ITEM, and as a VALUE that is followed by further entries.  The same texts, parsed, are the event
+# streams / node graphs of the emit and serialize families (POSITION_TEXT), because a dict cannot be a Python dict key.
+def _g(kind, n, ind):
+    pad = ' ' * ind
+    if kind == 'fseq':
+        return '[' + ', '.join(['a'] * n) + ']'
+    if kind == 'fseq_ml':
+        return '[\n' + ''.join(pad + '  a,\n' for _ in range(n)) + pad + ']'
+    if kind == 'fmap':
+        return '{' + ', '.join('k%07d: v' % i for i in range(n)) + '}'
+    if kind == 'bseq':
+        return ('\n' + pad).join(['- a'] * n)
+    if kind == 'bmap':
+        return ('\n' + pad).join('k%07d: v' % i for i in range(n))
+    if kind == 'words':
+        return ' '.join([W] * n)
+    if kind == 'dq':
+        return '"' + ' '.join([W] * n) + '"'
+    raise KeyError(kind)
+
+
+_POSITIONS = {
+    # position -> text with the growing node G; ind = column at which G starts (block kinds continue there)
+    'first_key':   (lambda g: '? ' + g + '\n: v\nz: 1\n', 2),
+    'later_key':   (lambda g: 'a: 1\n? ' + g + '\n: v\n', 2),
+    'key_in_item': (lambda g: '- x\n- ? ' + g + '\n  : v\n', 4),
+    'key_in_flow': (lambda g: '{? ' + g + ' : v, z: 1}\n', 3),
+    'first_item':  (lambda g: '- ' + g + '\n- x\n', 2),
+    'later_item':  (lambda g: '- x\n- ' + g + '\n', 2),
+    'first_value': (lambda g: '? k\n: ' + g + '\nz: 1\n', 2),
+}
+_POSITION_KINDS = {
+    'first_key':   ('fseq', 'fseq_ml', 'fmap', 'bseq', 'bmap', 'words', 'dq'),
+    'later_key':   ('fseq', 'bseq', 'bmap'),
+    'key_in_item': ('fseq', 'bseq', 'bmap'),
+    'key_in_flow': ('fseq', 'fmap'),
+    'first_item':  ('fseq', 'fmap', 'bseq', 'bmap', 'words'),
+    'later_item':  ('fseq', 'bmap'),
+    'first_value': ('fseq', 'bseq', 'bmap'),
+}
+POSITION_TEXT = {}
+for _pos, _kinds in _POSITION_KINDS.items():
+    for _kind in _kinds:
+        POSITION_TEXT['%s_%s' % (_pos, _kind)] = (lambda n, f=_POSITIONS[_pos][0], k=_kind, i=_POSITIONS[_pos][1]: f(_g(k, n, i)))
+LOAD.update(POSITION_TEXT)
 # how deep block / flow nesting gets (default: constant), and whether the text size is not linear in n
 DEPTH = {'nested_block_seqs_one_line': lambda n: n + 2, 'nested_block_maps': lambda n: n + 2}
 FLOW = {'nested_flow_seqs': lambda n: n, 'nested_flow_maps': lambda n: n}
 NESTED = {'nested_flow_seqs', 'nested_flow_maps', 'nested_block_seqs_one_line', 'nested_block_maps'}
 SIZE_IS_TEXT = {'nested_block_maps'}
 # families whose tags no safe constructor knows are measured up to the composer
-LOAD_API = {'tag_one_long': 'compose', 'tag_uri_escapes': 'compose'}      # indentation grows with depth: the size that doubles is the text length
+LOAD_API = {'tag_one_long': 'compose', 'tag_uri_escapes': 'compose'}
+# a collection in key position is not hashable: the safe constructor rejects it, so these stop at the composer
+LOAD_API.update({f: 'compose' for f in POSITION_TEXT if 'key' in f and not f.endswith(('_words', '_dq'))})      # indentation grows with depth: the size that doubles is the text length
 
 
 
@@ -205,6 +256,39 @@ DUMP = {
     'wide_indent_width':   (lambda n: ' '.join([W] * n), {'indent': 8, 'width': 30}),
     'bytes_binary':        (lambda n: b'\x00\x01binary' * n, {}),
 }
+
+def _gv(kind, n):
+    if kind == 'tuple':
+        return tuple(range(1000000, 1000000 + n))
+    if kind == 'list':
+        return list(range(1000000, 1000000 + n))
+    if kind == 'dict':
+        return {'k%07d' % i: 7 for i in range(n)}
+    if kind == 'str':
+        return ' '.join([W] * n)
+    if kind == 'tuples':                      # a collection of collections
+        return tuple((1000000 + i, 7) for i in range(n))
+    raise KeyError(kind)
+
+
+_VPOS = {
+    'first_key':   lambda g: {g: 'v', 'z': 1},
+    'later_key':   lambda g: {'a': 1, g: 'v'},
+    'key_in_item': lambda g: ['x', {g: 'v'}],
+    'first_item':  lambda g: [g, 'x'],
+    'later_item':  lambda g: ['x', g],
+    'first_value': lambda g: {'a': g, 'z': 1},
+}
+_VPOS_KINDS = {'first_key': ('tuple', 'tuples', 'str'), 'later_key': ('tuple', 'str'), 'key_in_item': ('tuple',),
+               'first_item': ('list', 'dict', 'str'), 'later_item': ('list', 'dict'), 'first_value': ('list', 'dict', 'str')}
+POSITION_VALUE = {}
+for _pos, _kinds in _VPOS_KINDS.items():
+    for _kind in _kinds:
+        POSITION_VALUE['%s_%s' % (_pos, _kind)] = ((lambda n, f=_VPOS[_pos], k=_kind: f(_gv(k, n))), {'sort_keys': False})
+POSITION_VALUE['first_key_tuple_flow'] = ((lambda n: {_gv('tuple', n): 'v', 'z': 1}), {'sort_keys': False, 'default_flow_style': True})
+POSITION_VALUE['many_tuple_keys'] = ((lambda n: {(1000000 + i, 7): 7 for i in range(n)}), {'sort_keys': False})
+DUMP.update(POSITION_VALUE)
+
 DUMP_ALL = {
     'documents':           (lambda n: ['d%07d' % i for i in range(n)], {}),
     'documents_of_lists':  (lambda n: [[1000000 + i, 'x'] for i in range(n)], {'explicit_start': True}),
@@ -230,7 +314,15 @@ def dump_apis(yaml):
         text = yaml.dump(v, Dumper=yaml.SafeDumper)
         evs = list(yaml.parse(text, Loader=yaml.SafeLoader))
         return lambda: yaml.emit(evs, Dumper=yaml.SafeDumper, **kw)
-    return {'dump': dump, 'dump_stream': dump_stream, 'dump_all': dump_all, 'serialize': serialize, 'emit': emit}
+    def emit_text(t, kw):          # emitter fed with the events of a text (mapping / sequence in key position, ...)
+        evs = list(yaml.parse(t, Loader=yaml.SafeLoader))
+        return lambda: yaml.emit(evs, Dumper=yaml.SafeDumper, **kw)
+
+    def serialize_text(t, kw):     # serializer + emitter fed with the node graph of a text
+        node = yaml.compose(t, Loader=yaml.SafeLoader)
+        return lambda: yaml.serialize(node, Dumper=yaml.SafeDumper, **kw)
+    return {'dump': dump, 'dump_stream': dump_stream, 'dump_all': dump_all, 'serialize': serialize, 'emit': emit,
+            'emit_text': emit_text, 'serialize_text': serialize_text}
 
 
 # ---------------------------------------------------------------------------------------------- sizes
@@ -245,7 +337,8 @@ def sizes_for(fam, side, unit_calls, target, min_n, doublings, nested_n, jitter=
     if nested:
         n, doublings = nested_n, min(doublings, 2)
     else:
-        n = max(MIN_N.get(fam, min_n) if side == 'load' else min_n, int(target // max(1, unit_calls)))
+        floor = min_n if unit_calls <= 400 else max(200, min_n // 3)   # a repetition of several entries counts as several
+        n = max(MIN_N.get(fam, floor) if side == 'load' else floor, int(target // max(1, unit_calls)))
         n += (n * jitter) // 100                         # VERIF_SEED moves every size a little
     if side == 'load' and fam in SIZE_IS_TEXT:           # text length ~ n^2: double the text, not the depth
         return [int(round(n * 2 ** (i / 2.0))) for i in range(doublings + 1)]
@@ -270,9 +363,12 @@ def measure_calls(task):
             text = gen(n)
             w.append(count_calls(lambda: fn(text)))
     else:
-        gen, kw = (DUMP_ALL if api == 'dump_all' else DUMP)[fam]
+        if api in ('emit_text', 'serialize_text'):
+            gen, kw = POSITION_TEXT[fam], {}
+        else:
+            gen, kw = (DUMP_ALL if api == 'dump_all' else DUMP)[fam]
         f = dump_apis(yaml)[api]
-        if api in ('serialize', 'emit'):
+        if api in ('serialize', 'emit', 'emit_text', 'serialize_text'):
             if api == 'emit':
                 kw = {k: v for k, v in kw.items() if k in ('canonical', 'indent', 'width', 'allow_unicode', 'line_break')}
             else:
@@ -285,7 +381,7 @@ def measure_calls(task):
             unit = count_calls(lambda: f(v0, kw)) // PROBE_N
         sizes = sizes_for(fam, side, unit, target, min_n, doublings, nested_n, jitter)
         for n in sizes:
-            if api in ('serialize', 'emit'):
+            if api in ('serialize', 'emit', 'emit_text', 'serialize_text'):
                 w.append(count_calls(f(gen(n), kw)))
             else:
                 v = gen(n)
@@ -380,6 +476,17 @@ def measure_prims(task):
             block = max(block, pr['block'])
             size = len(text)
             look = max(len(x) for x in text.split('\n'))
+        elif api == 'emit_text':
+            evs = list(yaml.parse(POSITION_TEXT[fam](n), Loader=yaml.SafeLoader))
+            d = PD(io.StringIO())
+            try:
+                for ev in evs:
+                    d.emit(ev)
+            finally:
+                d.dispose()
+            q.append(0); k.append(0); b.append(0); e.append(d.pr['e'])
+            units.append(d.pr['units'] + 1)
+            continue
         else:
             gen, kw = DUMP[fam]
             out = io.StringIO()
